@@ -143,6 +143,27 @@ func bandQueries(sps []oracle.Subpath, pls []oracle.Polyline, lo oracle.Pt) []or
 
 // rayGeneric: the horizontal ray from q to +inf passes no vertex and no curve extreme, so every
 // crossing is a proper crossing of the interior of a segment.
+// supportingEllipseQueries: points of the full ellipse (circle) that an arc segment is part of, 16
+// per arc: the end point of a ray that starts on the supporting curve of an arc it also crosses.
+func supportingEllipseQueries(sps []oracle.Subpath) []oracle.Pt {
+	var out []oracle.Pt
+	for _, sp := range sps {
+		for _, s := range sp.Segs {
+			if s.Kind != oracle.CmdArc {
+				continue
+			}
+			c, _, _, rx, ry, st := oracle.ArcGeom(s)
+			if st != oracle.ArcOK && st != oracle.ArcHalf {
+				continue
+			}
+			for k := 0; k < 16; k++ {
+				out = append(out, oracle.EllipseAt(c, rx, ry, s.Phi, (float64(k)+0.37)*math.Pi/8))
+			}
+		}
+	}
+	return out
+}
+
 func rayGeneric(sp []specialY, q oracle.Pt) bool {
 	for _, s := range sp {
 		if math.Abs(s.y-q.Y) <= s.tol && s.x >= q.X-1e-3 {
@@ -183,6 +204,7 @@ func checkShape(r *fw.R, d []float64, flat bool) {
 	lat, gen := queries(lo, hi)
 	gen = append(gen, bandQueries(sps, pls, lo)...)
 	gen = append(gen, extremeLevelQueries(sps, pls, lo, hi)...)
+	gen = append(gen, supportingEllipseQueries(sps)...)
 	p := cv.Path(d)
 	before := append([]float64(nil), p.Data()...)
 	vertex := map[oracle.Pt]bool{}
